@@ -39,8 +39,9 @@ ASSUMPTIONS = [
 FLOORS = {"quick": {"evaluations": 300, "pin_draws": 60000, "crash_children": 36,
                     "restarts": 300, "file_writes_checked": 100,
                     "adversarial_entropy_draws": 500},
-          "thorough": {"evaluations": 6000, "pin_draws": 2000000, "crash_children": 600,
-                       "restarts": 5000, "file_writes_checked": 2000}}
+          "thorough": {"evaluations": 4000, "pin_draws": 2000000, "crash_children": 500,
+                       "restarts": 6000, "file_writes_checked": 3000,
+                       "adversarial_entropy_draws": 30000}}
 
 DEFAULT_PIN = b"dflt1234"
 CRASH_POINTS = ["before_send", "after_ack_before_open", "after_open_before_write",
@@ -411,7 +412,7 @@ def gen_histories(spec, tmpdir):
                 {"platform": platform, "force": force}, {"platform": platform},
                 {"platform": platform, "force": True}, {"platform": platform}]})
     # sampled deeper histories
-    extra = 60 if not thorough else 800
+    extra = 60 if not thorough else 6000
     for _ in range(extra):
         platform = rng.choice(["ledger", "sgx"])
         start = rng.choice(["absent", "forced"])
@@ -428,7 +429,7 @@ def gen_histories(spec, tmpdir):
                 o = rng.choice([("sw", 0x69A0, False), ("sw", 0x6A99, False),
                                 ("read_error", None, False), ("read_error", None, True)])
                 st["plan"] = {str(k): list(o)}
-            elif r < 0.7 and thorough:
+            elif r < 0.68 and thorough:
                 st["crash"] = rng.choice(CRASH_POINTS)
             steps.append(st)
         steps.append({"platform": platform})
